@@ -23,17 +23,26 @@ class RecordingSend:
     `self.stream`; a drainer task timestamps every item at the virtual instant it was
     written (virtual time cannot advance while the drainer is runnable)."""
 
-    def __init__(self) -> None:
+    def __init__(self, capacity: float = math.inf, drain_delays: Optional[Dict[int, float]] = None) -> None:
         self.items: List[Tuple[float, Any]] = []
         self.first = asyncio.Event()
         self.on_send: Optional[Callable[[Any], None]] = None
-        self.stream, self._recv = anyio.create_memory_object_stream(math.inf)
+        self.stream, self._recv = anyio.create_memory_object_stream(capacity)
+        # drain_delays[i] = virtual seconds the peer waits before it reads item i
+        # (models a server that is slow to read its input; only meaningful with a bounded capacity)
+        self._delays = drain_delays or {}
         self._task = asyncio.ensure_future(self._drain())
 
     async def _drain(self) -> None:
         try:
-            async for item in self._recv:
+            i = 0
+            while True:
+                d = self._delays.get(i, 0.0)
+                if d > 0:
+                    await asyncio.sleep(d)
+                item = await self._recv.receive()
                 self._note(item)
+                i += 1
         except (anyio.ClosedResourceError, anyio.EndOfStream):
             pass
 
@@ -172,6 +181,8 @@ def drive(
     wait_first_write: bool = True,
     settle: float = 0.0,
     max_vtime: float = 3600.0,
+    write_capacity: float = math.inf,
+    drain_delays: Optional[Dict[int, float]] = None,
 ) -> DriveResult:
     """schedule: list of (t, wire_template).  A template that is a dict with key "$raw"
     is delivered as the Python object under that key (after substitution) without parsing."""
@@ -179,7 +190,7 @@ def drive(
 
     async def main() -> None:
         send, recv = anyio.create_memory_object_stream(math.inf)
-        rec = RecordingSend()
+        rec = RecordingSend(write_capacity, drain_delays)
         res.inject = send.send_nowait
 
         async def feeder() -> None:
